@@ -3,7 +3,7 @@ CONSTANTS
     MaxLen = 3
     MaxVals = 2
     MaxIds = 8
-    MaxSteps = 4
+    MaxSteps = 5
 INVARIANTS Inv EmitHist
 VIEW LedgerView
 CHECK_DEADLOCK FALSE
